@@ -707,6 +707,8 @@ func (v *fnVC) convert(i *ssa.Convert, st *State) {
 		sl := mk(sapp("mkSlice", a.S, bvLit(0, 64), sapp("slen", x.S), sapp("slen", x.S)), sSlice).withGo(i.Type())
 		sl.Op, sl.Args = "bytesof", []*T{x}
 		v.vals[i] = sl
+		// the bytes of the new slice are the bytes of the string
+		e.assume(mk(fmt.Sprintf("(forall ((i (_ BitVec 64))) (! (= (select (sbytes %s) i) (sat %s i)) :pattern ((select (sbytes %s) i))))", x.S, x.S, x.S), sBool))
 		if _, ok := v.w.specs.Funcs["strOf"]; ok {
 			// the byte-string view (strOf) of the converted slice is the string itself
 			e.usedSpec["strOf"] = true
